@@ -14,7 +14,8 @@ RULE = ('Differential across processes: Hypothesis draws (shell model, configura
         'the name sets, in warm batch workers (fresh Builder per build, and one Builder instance reused '
         'for the whole batch), in a fresh process per case, and as the second build after a user has '
         'extended own NamespaceIds / Fqn values (made from every identifier occurring in the output) '
-        'in place; oracle: all variants '
+        'in place, and in another working directory where the configured file name is a symbolic link '
+        'to a differently named file; oracle: all variants '
         'agree on file names, sha256 of the contents and reported hashes (or all fail with the same '
         'error class), and every reported hash equals md5 of the UTF-8 contents. Non-trivial: >= 2 '
         'explicit names in a selection; distinct by hash of (model, spec).')
@@ -23,16 +24,19 @@ ASSUMPTIONS = ['hash seeds explored: 0, 1, 2, 3 and 1000+VERIF_SEED (quick: 0, 1
                'ordered name lists (vf/cfgspec.py)']
 
 
+FSENV = ('other working directory in which the configured file name exists as a symbolic link to a '
+         'differently named file')
 NOISE = 'second build after unrelated use of the public helpers (own values extended in place)'
 
 
-def run_worker(cases, hashseed, perm, shared_builder=False, user_noise=False):
+def run_worker(cases, hashseed, perm, shared_builder=False, user_noise=False, fs_env=False):
     env = dict(os.environ)
     env['PYTHONHASHSEED'] = str(hashseed)
     env['PYTHONPATH'] = os.pathsep.join([REPO_SRC, VERIF_DIR, os.path.join(VERIF_DIR, '.deps')])
     env['PYTHONDONTWRITEBYTECODE'] = '1'
     data = ''.join(json.dumps({'model': c['sm']['model'], 'spec': c['spec'], 'perm': perm,
-                               'shared_builder': shared_builder, 'user_noise': user_noise}) + '\n'
+                               'shared_builder': shared_builder, 'user_noise': user_noise,
+                               'fs_env': fs_env}) + '\n'
                    for c in cases)
     r = subprocess.run([sys.executable, '-m', 'vf.worker'], input=data, capture_output=True,
                        text=True, env=env, cwd=VERIF_DIR, timeout=3600, check=False)
@@ -88,6 +92,7 @@ def check_case(case):
         for perm in (0, 1, 2):
             variants.append((f'hashseed={hs}/order={perm}', run_worker([case], hs, perm)[0]))
     variants.append((NOISE, run_worker([case], 0, 0, False, True)[0]))
+    variants.append((FSENV, run_worker([case], 0, 0, False, False, True)[0]))
     compare(case, variants)
 
 
@@ -119,7 +124,8 @@ def run(ctx):
         fresh = list(ex.map(lambda i: run_worker([cases[i]], 1, 1)[0], fresh_idx))
         shared_f = ex.submit(run_worker, cases, 0, 0, True)  # one Builder for all cases
         noise_f = ex.submit(run_worker, cases, 0, 0, False, True)
-        shared, noise = shared_f.result(), noise_f.result()
+        fsenv_f = ex.submit(run_worker, cases, 0, 0, False, False, True)
+        shared, noise, fsenv = shared_f.result(), noise_f.result(), fsenv_f.result()
     seen = set()
     for i, case in enumerate(cases):
         nt = n_explicit(case['spec']) >= 2
@@ -130,6 +136,7 @@ def run(ctx):
             variants.append(('fresh process hashseed=1/order=1', fresh[fresh_idx.index(i)]))
         variants.append(('one Builder instance reused for the whole batch', shared[i]))
         variants.append((NOISE, noise[i]))
+        variants.append((FSENV, fsenv[i]))
         try:
             compare(case, variants)
         except Fail as f:
